@@ -30,6 +30,13 @@ fn classify(v: f64) -> Option<Option<f64>> {
 fn one(out: &mut Out, n: usize, m: &[f64], count: &mut usize, with_bonds: &mut usize, errors: &mut usize) {
     let syms: Vec<&str> = (0..n).map(|_| "C").collect();
     let mut w = Wrapper::from_atomic_symbols(&syms);
+    // half of the cases start from a molecule that already has bonds (a chain set through the same interface):
+    // the result must not depend on what was there before
+    if *count % 2 == 1 && n >= 2 {
+        let mut prev = vec![0.0; n * n];
+        for i in 0..(n - 1) { prev[i * n + i + 1] = 1.0; prev[(i + 1) * n + i] = 1.0; }
+        w.set_bond_orders(prev);
+    }
     let input = format!("matrix {} {}", n, if m.is_empty() { "-".to_string() } else { m.iter().map(|v| hx(*v)).collect::<Vec<_>>().join(" ") });
     let r = panic_kind(|| w.set_bond_orders(m.to_vec()));
     *count += 1;
